@@ -474,7 +474,9 @@ def _case_vhdx_locator(case, ctx):
 
 # ---- VMDK descriptors -------------------------------------------------------------------------------------------------
 ODD = ["\x0b", "\x0c", "\x1c", "\x1d", "\x1e", "\x85", "\u2028", "\u2029", "\xa0", "\u3000", "\t", "\ufeff"]
-VMDK_NAMES = (["d.vmdk", "d with space.vmdk", 'd"q.vmdk', "ünï-cödé.vmdk", "\U0001F4BE.vmdk", "size=small & id#4.vmdk"]
+VMDK_NAMES = (["d.vmdk", "d with space.vmdk", 'd"q.vmdk', "ünï-cödé.vmdk", "\U0001F4BE.vmdk", "size=small & id#4.vmdk",
+               # names with directories (device paths of raw mappings, datastore paths, Windows paths): exposed as stored
+               "/vmfs/devices/disks/naa.6000c29f", "sub dir/d-flat.vmdk", "C:\\vms\\d-s001.vmdk", "..\\base\\d.vmdk"]
               + ["my old disk" + ch + "copy-f002.vmdk" for ch in ODD])
 
 
